@@ -978,7 +978,7 @@ def normalize_cases(ctx, rep, rnd, n):
 
 
 READBACK_VALUES = ["plain", "a,b", "a;b", "a\tb", "a|b", "a:b", 'q"q', "x y", "", "a, b; c", "1,2,3,4", ";;;;", 'alice, "the" admin',
-                   "l\nf", " lead", "trail ", "'q'", 'a "q" b', "\u00e9\U0001f600", "=1+1"]
+                   "l\nf", " lead", "trail ", "'q'", 'a "q" b', "\u00e9\U0001f600", "=1+1", "c\r\nd", "cr\rx"]
 READBACK_OPTS = [{}, {"fields": "_source,s,u"}, {"fields": "_source,s"}, {"fields": "_generated,s,u"}, {"fields": "s,u"},
                  {"fields": "u,n,s"}, {"exclude": "_source,_classification,_generated,_version"}, {"exclude": "s,u,n"},
                  {"lineterminator": "\\n"}, {"fields": "s,u", "lineterminator": "\\n"}]
@@ -992,8 +992,12 @@ def readback_files(rnd, n, workdir):
     out = []
     fixed = [({"fields": "s,u"}, [("z", "a,b")]), ({"fields": "_source,s"}, [("plain", "x"), ("a,b", "y")]),
              ({}, [("plain", "'q'")]), ({"fields": "s,u", "lineterminator": "\\n"}, [("z", 'a "q" b')])]
-    plans = fixed + [(rnd.choice(READBACK_OPTS), [(rnd.choice(READBACK_VALUES), rnd.choice(READBACK_VALUES)) for _ in range(rnd.randint(1, 4))])
-                     for _ in range(n)]
+    plans = list(fixed)
+    for _ in range(n):
+        o = rnd.choice(READBACK_OPTS)
+        # a carriage return under the LF terminator is the known finding C20-csv-cr-unquoted-with-lf-terminator: not here
+        vals = [v for v in READBACK_VALUES if not ("\r" in v and o.get("lineterminator"))]
+        plans.append((o, [(rnd.choice(vals), rnd.choice(vals)) for _ in range(rnd.randint(1, 4))]))
     for k, (o, rows) in enumerate(plans):
         src = rnd.choice(["src", "a,b", None]) if k >= len(fixed) else "src"
         recs = [D(s=a, u=b, n=i, _source=src, _generated=TS) for i, (a, b) in enumerate(rows)]
@@ -1051,7 +1055,7 @@ def read_cases(ctx, rep, rnd, n, workdir, written):
         hdr = fields.split(",") if fields is not None else allrows[0]
         body = allrows if fields is not None else allrows[1:]
         keep = [j for j, h in enumerate(hdr) if not normalize_fieldname(h).startswith("_")]
-        cells_want = [[r[j] for j in keep] for r in body]
+        cells_want = [[r[j] if j < len(r) else None for j in keep] for r in body]
         cells_got = None if got is None else [[v for _, v in row] for row in got]
         meta = dict(kind="read", origin=origin, delimiter=d, fields=fields, text=text, want=cells_want)
         ok = err is None and cells_got == cells_want
